@@ -5,10 +5,10 @@ package main
 
 import (
 	"fmt"
+	"os"
 	"go/ast"
 	"go/token"
 	"go/types"
-	"os"
 	"strings"
 
 	"golang.org/x/tools/go/ast/astutil"
@@ -761,4 +761,98 @@ func blockHasEffect(b *ssa.BasicBlock, l *natLoop, idx []*ssa.Phi) bool {
 		}
 	}
 	return false
+}
+
+// RunInputPosLen: a contextual subtable hands the positions of the matched
+// input glyphs to the nested lookups; sequence index k of an action means
+// "the k-th glyph of the input sequence", so the list must hold exactly one
+// position per input glyph: len(rule.Input)+1 for formats 1 and 2 (whose
+// Input omits the first glyph), len(l.Input) for format 3.
+func RunInputPosLen(w *World, r *Report, br *boundsRun, fns []*ssa.Function) {
+	r.Rule("inputposlen: where an apply method pushes a nested-action record, the length of its InputPos list equals the number of glyphs of the input sequence of the rule whose Actions it stores — len(Input)+1 where Input lists the glyphs after the first (glyph ids or classes), len(Input) where it lists one coverage table per glyph — shown by the linear prover (lock-step induction of the list length with the loop over Input)")
+	for _, fn := range fns {
+		if fn.Blocks == nil || fn.Name() != "apply" {
+			continue
+		}
+		for _, b := range fn.Blocks {
+			for _, in := range b.Instrs {
+				st, ok := in.(*ssa.Store)
+				if !ok {
+					continue
+				}
+				fa, ok := st.Addr.(*ssa.FieldAddr)
+				if !ok || fieldName(fa) != "InputPos" {
+					continue
+				}
+				al, ok := fa.X.(*ssa.Alloc)
+				if !ok {
+					continue
+				}
+				// the Actions stored into the same record
+				var actions ssa.Value
+				for _, ref := range *al.Referrers() {
+					if fa2, ok := ref.(*ssa.FieldAddr); ok && fieldName(fa2) == "Actions" {
+						for _, r2 := range *fa2.Referrers() {
+							if s2, ok := r2.(*ssa.Store); ok {
+								actions = s2.Val
+							}
+						}
+					}
+				}
+				key := r.MkKey("inputposlen", fnName(fn), "nested-action record")
+				ld, ok := actions.(*ssa.UnOp)
+				if !ok {
+					r.Fail("inputposlen", key, w.Pos(st.Pos()), "the Actions of the record are not loaded from a rule", nil)
+					continue
+				}
+				afa, ok := ld.X.(*ssa.FieldAddr)
+				if !ok {
+					r.Fail("inputposlen", key, w.Pos(st.Pos()), "the Actions of the record are not a field of a rule", nil)
+					continue
+				}
+				base := afa.X
+				// a load of base.Input
+				var input ssa.Value
+				for _, bb := range fn.Blocks {
+					for _, ii := range bb.Instrs {
+						if u, ok := ii.(*ssa.UnOp); ok && u.Op == token.MUL {
+							if ifa, ok := u.X.(*ssa.FieldAddr); ok && fieldName(ifa) == "Input" && sameObject(ifa.X, base) {
+								input = u
+							}
+						}
+					}
+				}
+				if input == nil {
+					r.Fail("inputposlen", key, w.Pos(st.Pos()), "the rule's Input list is not read in this function", nil)
+					continue
+				}
+				extra := int64(1)
+				if sl, ok := input.Type().Underlying().(*types.Slice); ok {
+					es := sl.Elem().String()
+					if strings.Contains(es, "coverage.") {
+						extra = 0
+					}
+				}
+				p := br.prover(fn)
+				d, ok := p.lenOf(st.Val).sub(p.lenOf(input))
+				if !ok {
+					r.Fail("inputposlen", key, w.Pos(st.Pos()), "lengths not comparable", nil)
+					continue
+				}
+				d = d.addc(-extra)
+				dn, _ := d.scale(-1)
+				if os.Getenv("SFNT_BDEBUG") == "inputposlen" {
+					fmt.Println("inputposlen", fnName(fn), p.linStr(d))
+					p.trace = true
+					p.proveAt(b, d)
+					p.trace = false
+				}
+				if p.proveAt(b, d) && p.proveAt(b, dn) {
+					r.OK("inputposlen", key, w.Pos(st.Pos()), fmt.Sprintf("len(InputPos) = len(Input)+%d", extra))
+				} else {
+					r.Fail("inputposlen", key, w.Pos(st.Pos()), fmt.Sprintf("the position list handed to the nested lookups is not shown to have len(Input)+%d entries (one per glyph of the input sequence): a sequence index then addresses the wrong glyph", extra), nil)
+				}
+			}
+		}
+	}
 }
